@@ -65,21 +65,24 @@ def hist_jobs(prop, tier, map_args, set_args, native=(120_000, 2_500_000), rel=(
 
 MAP_ROWS = {
     'C01': ['insert:', 'insert_key_value:', 'checked_insert:', 'get_mut:', 'index:', 'index_mut:', 'remove:', 'remove_entry:',
-            'retain:', 'clear:', 'drain:'],
-    'C02': ['insert:', 'remove:', 'retain:', 'clear:', 'drain:', 'into_iter:', 'into_keys:', 'into_values:', 'clone:', 'entry.', 'adaptor:drain:nth', 'adaptor:drain:step_by(2)', 'adaptor:into_iter:take'],
-    'C05': ['insert:', 'checked_insert:', 'remove:', 'retain:', 'entry.', 'index:'],
-    'C09': ['iter:', 'iter_mut:', 'keys:', 'values:', 'values_mut:', 'adaptor:iter:nth', 'adaptor:values_mut:fold', 'adaptor:iter_mut:count', 'adaptor:keys:step_by(2)', 'adaptor:values:last'],
-    'C10': ['drain:', 'into_iter:', 'into_keys:', 'into_values:', 'adaptor:drain:nth', 'adaptor:drain:skip', 'adaptor:into_iter:last', 'adaptor:into_keys:fold', 'adaptor:into_values:step_by(2)'],
+            'retain:', 'clear:', 'drain:', 'construct:Map::from(array):N>0', 'construct:Map::from_iter:N>0', 'zst-pairs'],
+    'C02': ['insert:', 'remove:', 'retain:', 'clear:', 'drain:', 'into_iter:', 'into_keys:', 'into_values:', 'clone:', 'entry.', 'adaptor:drain:nth', 'adaptor:drain:step_by(2)', 'adaptor:into_iter:take', 'zst-pairs'],
+    'C05': ['insert:', 'checked_insert:', 'remove:', 'retain:', 'entry.', 'index:', 'construct:Map::default:N=0', 'construct:Map::with_capacity:N>0',
+            'construct:Map::from(array):N=0', 'construct:Map::from(array):N>0', 'construct:Map::from_iter:N>0', 'zst-pairs'],
+    'C09': ['iter:', 'iter_mut:', 'keys:', 'values:', 'values_mut:', 'adaptor:iter:nth', 'adaptor:values_mut:fold', 'adaptor:iter_mut:count', 'adaptor:keys:step_by(2)', 'adaptor:values:last',
+            'adaptor-on-exhausted:iter', 'adaptor-on-exhausted:keys', 'adaptor-on-exhausted:values', 'adaptor-on-exhausted:iter_mut', 'adaptor-on-exhausted:values_mut', 'zst-pairs'],
+    'C10': ['drain:', 'into_iter:', 'into_keys:', 'into_values:', 'adaptor:drain:nth', 'adaptor:drain:skip', 'adaptor:into_iter:last', 'adaptor:into_keys:fold', 'adaptor:into_values:step_by(2)',
+            'adaptor-on-exhausted:drain', 'adaptor-on-exhausted:into_iter', 'adaptor-on-exhausted:into_keys', 'adaptor-on-exhausted:into_values', 'zst-pairs'],
     'C12': ['insert:', 'insert_key_value:', 'checked_insert:', 'remove_entry:', 'entry.'],
-    'C15': ['clone:', 'drop-copy', 'clone_from:target-longer', 'clone_from:target-shorter', 'clone_from:same-length'],
+    'C15': ['clone:', 'drop-copy', 'clone_from:target-longer', 'clone_from:target-shorter', 'clone_from:same-length', 'zst-pairs'],
     'C19': ['fmt:map-debug', 'fmt:map-alt-debug', 'fmt:map-display', 'fmt:Iter:', 'fmt:IterMut', 'fmt:Keys', 'fmt:Values:',
             'fmt:ValuesMut', 'fmt:IntoIter', 'fmt:IntoKeys', 'fmt:Drain', 'fmt:unit-valued-map'],
 }
 SET_ROWS = {
-    'C07': ['insert:', 'replace:', 'remove:', 'take:', 'retain:', 'clear:', 'drain:', 'extend:'],
+    'C07': ['insert:', 'replace:', 'remove:', 'take:', 'retain:', 'clear:', 'drain:', 'extend:', 'construct:Set::from(array):N>0', 'construct:Set::from_iter:N>0'],
     'C02': ['insert:', 'replace:', 'remove:', 'take:', 'retain:', 'clear:', 'drain:', 'into_iter:', 'clone:', 'extend:'],
-    'C05': ['insert:', 'replace:', 'remove:', 'retain:', 'extend:'],
-    'C09': ['set-iter:', 'adaptor:iter:nth', 'adaptor:iter:fold'],
+    'C05': ['insert:', 'replace:', 'remove:', 'retain:', 'extend:', 'construct:Set::from(array):N=0', 'construct:Set::from(array):N>0'],
+    'C09': ['set-iter:', 'adaptor:iter:nth', 'adaptor:iter:fold', 'adaptor-on-exhausted:iter'],
     'C10': ['drain:', 'into_iter:', 'adaptor:drain:nth', 'adaptor:into_iter:skip'],
     'C12': ['insert:', 'replace:', 'take:', 'extend:'],
     'C15': ['clone:', 'drop-copy', 'clone_from:target-longer', 'clone_from:target-shorter'],
@@ -508,9 +511,10 @@ def _c20(tier):
 
 
 plan('C20', jobs=_c20,
-     rule='A case is one container state pushed through one of: the recording serializer, or a decode (replay of the recorded stream / bincode standard / bincode legacy) into a target of capacity M. States come from random insert/remove histories (so the internal slot order varies, incl. empty and full), for Map<u32,u32,N>, Map<u8,i64,N>, Map<String,u32,N>, Map<i64,bool,N>, Map<u32,String,N>, Map<String,String,N>, Map<bool,u8,N>, Set<u32,N>, Set<String,N>, Set<u8,N>, Set<i64,N> with source capacities N in {0,1,3,4,5,8,16}; targets M = N and three more capacities per type (M = len, len < M < N, M > N); decodes into M < len are not attempted. Non-trivial: the container is non-empty; distinct by (types, N, keys in slot order).',
+     rule='A case is one container state pushed through one of: the recording serializer, or a decode (replay of the recorded stream / bincode standard / bincode legacy) into a target of capacity M. States come from random insert/remove histories (so the internal slot order varies, incl. empty and full), for Map<u32,u32,N>, Map<u8,i64,N>, Map<String,u32,N>, Map<i64,bool,N>, Map<u32,String,N>, Map<String,String,N>, Map<bool,u8,N>, Map<Zs,Zs,N> and Set<Zs,N> (zero-sized pairs, unit-struct encoding), Map<Zs,u32,N>, Set<u32,N>, Set<String,N>, Set<u8,N>, Set<i64,N> with source capacities N in {0,1,3,4,5,8,16}; targets M = N and three more capacities per type (M = len, len < M < N, M > N); decodes into M < len are not attempted. Non-trivial: the container is non-empty; distinct by (types, N, keys in slot order).',
      required=['map-serialize:empty', 'map-serialize:partial', 'map-serialize:full', 'map-decode:M=len', 'map-decode:M=N', 'map-decode:M>N', 'map-decode:len<M<N',
-               'set-serialize:empty', 'set-serialize:partial', 'set-serialize:full', 'set-decode:M=len', 'set-decode:M=N', 'set-decode:M>N'],
+               'set-serialize:empty', 'set-serialize:partial', 'set-serialize:full', 'set-decode:M=len', 'set-decode:M=N', 'set-decode:M>N',
+               'zero-sized-pairs:map', 'zero-sized-pairs:set'],
      assumptions=['serde 1.0.219 and bincode 2.0.1 from the offline registry are correct',
                   'the recording Serializer / replaying Deserializer of the harness implement the serde data model for maps and sequences of scalars and strings',
                   'only the executions listed under coverage were observed'],
